@@ -77,15 +77,28 @@ class ParamUse:
         self.memo[key] = []       # recursion guard: assume fine
         fn = self.program.fn(module, qual)
         cls = qual.split('.')[0] if '.' in qual else None
-        probs = []
         aliases = {pname}
-        for node in ast.walk(fn):
-            if isinstance(node, ast.Name) and node.id in aliases and isinstance(node.ctx, ast.Load):
-                par = getattr(node, '_parent', None)
-                probs.extend(self._classify(node, par, fn, module, cls, pname, depth))
-            if isinstance(node, ast.Name) and node.id in aliases and isinstance(node.ctx, (ast.Store, ast.Del)):
-                # rebinding the parameter name itself is harmless for the caller's object
-                pass
+        for _ in range(6):
+            probs = []
+            grown = False
+            for node in ast.walk(fn):
+                if isinstance(node, ast.Name) and node.id in aliases and isinstance(node.ctx, ast.Load):
+                    par = getattr(node, '_parent', None)
+                    # other names for the same object: a plain local alias, the loop variable over a literal tuple / list that holds it
+                    if isinstance(par, ast.Assign) and par.value is node and len(par.targets) == 1 and isinstance(par.targets[0], ast.Name):
+                        if par.targets[0].id not in aliases:
+                            aliases.add(par.targets[0].id); grown = True
+                        continue
+                    if isinstance(par, (ast.Tuple, ast.List)):
+                        gp = getattr(par, '_parent', None)
+                        tgt = gp.target if isinstance(gp, (ast.For, ast.AsyncFor, ast.comprehension)) and gp.iter is par else None
+                        if isinstance(tgt, ast.Name):
+                            if tgt.id not in aliases:
+                                aliases.add(tgt.id); grown = True
+                            continue
+                    probs.extend(self._classify(node, par, fn, module, cls, pname, depth))
+            if not grown:
+                break
         self.memo[key] = probs
         return probs
 
@@ -158,7 +171,22 @@ class ParamUse:
             if depth > 6:
                 return [('unknown', 'call chain too deep', ln)]
             sub = self.summary(tgt[0], tgt[1], target_param, depth + 1)
-            return [(k, f"via {tgt[1]}({target_param}): {d}", l) for k, d, l in sub]
+            out_ = []
+            for k, d, l in sub:
+                if k == 'returned':
+                    # the callee hands the object back: the call expression stands for it here
+                    gp_ = getattr(par, '_parent', None)
+                    if isinstance(gp_, ast.Await):
+                        gp_ = getattr(gp_, '_parent', None)
+                    if isinstance(gp_, ast.Assign) and any(isinstance(x, ast.Attribute) for t in gp_.targets for x in ast.walk(t) if isinstance(x, ast.Attribute) and isinstance(x.ctx, ast.Store)):
+                        out_.append(('stored', f"via {tgt[1]}({target_param}), which returns it: stored un-copied into {', '.join(ast.unparse(t) for t in gp_.targets)}", ln))
+                    elif isinstance(gp_, ast.Expr):
+                        pass
+                    else:
+                        out_.append(('escape', f"via {tgt[1]}({target_param}): returned and used in {type(gp_).__name__}", ln))
+                else:
+                    out_.append((k, f"via {tgt[1]}({target_param}): {d}", l))
+            return out_
         if isinstance(par, ast.keyword):
             call = getattr(par, '_parent', None)
             if isinstance(call, ast.Call):
@@ -169,7 +197,9 @@ class ParamUse:
                 return [('stored', f"stored un-copied into {', '.join(ast.unparse(t) for t in tg)}", ln)]
             return [('alias', f"aliased as {', '.join(ast.unparse(t) for t in tg)}", ln)]
         if isinstance(par, ast.Return):
-            return [('escape', 'returned to the caller', ln)]
+            return [('returned', 'returned to the caller', ln)]
+        if isinstance(par, (ast.Tuple, ast.List)) and isinstance(getattr(par, '_parent', None), ast.Return):
+            return [('returned', 'returned to the caller (inside a tuple)', ln)]
         if isinstance(par, (ast.JoinedStr, ast.FormattedValue)):
             return []
         if isinstance(par, (ast.Tuple, ast.List)):
@@ -192,8 +222,10 @@ def defaults_ro(chk, program, rule='DEFAULTS-RO'):
                 if isinstance(d, (ast.List, ast.Dict, ast.Set)):
                     n += 1
                     probs = pu.summary(mname, q, p.arg)
-                    unknown = [x for x in probs if x[0] == 'unknown']
-                    bad = [x for x in probs if x[0] != 'unknown']
+                    # a witness is a place that edits the shared object or keeps it un-copied in an instance; a use the analysis cannot follow
+                    # (handed out, put in a container, an unclassified method) is no verdict
+                    unknown = [x for x in probs if x[0] in ('unknown', 'alias', 'escape', 'returned')]
+                    bad = [x for x in probs if x[0] in ('mutated', 'stored')]
                     inst = f"{mname}.{q}({p.arg})"
                     if unknown and not bad:
                         chk.unknown(rule, inst, '; '.join(f"{d_} (line {l})" for _, d_, l in unknown), m.rel(), fn.lineno)
@@ -249,10 +281,15 @@ def no_global_write(chk, program, rule='NO-GLOBAL-WRITE'):
                 if isinstance(root, ast.Name) and root.id in module_names and (root.id not in local or root.id in globs) and root.id not in ('self', 'logger', 'logging'):
                     # a method called `clear` / `add` / ... on an object of a class of the package (a value object with such a method) is not a container edit
                     if how != 'store':
+                        # the container methods of that name take a fixed number of arguments: a call with another number is a method of some other class
+                        arity = {'clear': (0, 0), 'append': (1, 1), 'extend': (1, 1), 'remove': (1, 1), 'pop': (0, 2), 'add': (1, 1), 'discard': (1, 1), 'insert': (2, 2), 'reverse': (0, 0),
+                                 'popitem': (0, 1), 'setdefault': (1, 2)}.get(how)
+                        if arity is not None and not any(isinstance(a_, ast.Starred) for a_ in x.args) and not (arity[0] <= len(x.args) + len(x.keywords) <= arity[1]):
+                            continue
                         from . import absint as A_
                         hit_ = A_.ModuleEnv(m.tree).lookup(root.id)
                         if hit_ is not None and hit_[0] == 'assign' and isinstance(hit_[1], ast.Call) and isinstance(hit_[1].func, (ast.Name, ast.Attribute)):
-                            cn_ = hit_[1].func.id if isinstance(hit_[1].func, ast.Name) else None
+                            cn_ = hit_[1].func.id if isinstance(hit_[1].func, ast.Name) else (hit_[1].func.value.id if isinstance(hit_[1].func.value, ast.Name) else None)
                             ch_ = hit_[2].lookup(cn_) if cn_ else None
                             if ch_ is not None and ch_[0] == 'class' and any(isinstance(b_, ast.FunctionDef) and b_.name == how for b_ in ch_[1].body):
                                 continue
